@@ -4,6 +4,15 @@ QCoords == {0, 1, 3}
 QPEnergies == {0, 2, INF}
 QShapes == {<<3, 1>>, <<2, 2>>, <<1, 2>>}
 QPTols == {<<0,1>>, <<1,1>>, <<2,1>>, <<1,2>>}
+QPScales == {0}
 TCoords == {-1, 0, 1, 3}
 TShapes == {<<3, 1>>, <<2, 2>>, <<1, 2>>, <<3, 2>>, <<4, 1>>}
+\* other magnitudes (about 1e-301, 1e-9, 1e10), negative coordinates and energies, a tolerance tiny but not zero
+SCoords == {-2, 0, 1}
+SPEnergies == {-2, 1, INF}
+SShapes == {<<2, 2>>}
+SPTols == {<<0,1>>, <<1,1>>, <<1, 16777216>>}
+SPScales == {-1000, -30, 33}
+XShapes == {<<2, 2>>, <<3, 1>>}
+XPScales == {-1000, -300, -30, 33, 996}
 ====
